@@ -6,6 +6,9 @@ import (
 	"io"
 	"io/ioutil"
 	"math/rand"
+	"runtime"
+	"sync"
+	"sync/atomic"
 
 	"github.com/kardiachain/go-kardia/lib/common"
 	"github.com/kardiachain/go-kardia/lib/merkle"
@@ -980,4 +983,93 @@ func randomCase(c *core.Case) {
 		}
 		run.Sample(map[string]interface{}{"group": c.Group, "case": c.I, "set": p.String(), "offers": len(seq), "first_offers": d})
 	}
+}
+
+// concurrentCase: the part set has a mutex, i.e. it is built for deliveries from several goroutines. The same genuine
+// parts are offered by several goroutines at once (released together per part): every slot must be reported as added
+// exactly once, the count must equal the number of filled slots at the end and the set is complete exactly when every
+// slot is filled - whatever the interleaving inside AddPart was.
+func concurrentCase(c *core.Case) {
+	run, r := c.Run, c.R
+	n := 2 + r.Intn(5)
+	ps := []int{65536, 4096, 65536}[r.Intn(3)]
+	data := genData(r, (n-1)*ps+1+r.Intn(ps), false)
+	full := types.NewPartSetFromData(data, uint32(ps))
+	n = int(full.Total())
+	offered := n
+	if r.Intn(3) == 0 {
+		offered = 1 + r.Intn(n) // an incomplete delivery
+	}
+	rounds := 30
+	for round := 0; round < rounds; round++ {
+		set := types.NewPartSetFromHeader(full.Header())
+		workers := 2 + r.Intn(5)
+		addedBy := make([][]int32, workers)
+		var wg sync.WaitGroup
+		gates := make([]chan struct{}, offered)
+		for i := range gates {
+			gates[i] = make(chan struct{})
+		}
+		var panicked atomic.Value
+		for w := 0; w < workers; w++ {
+			addedBy[w] = make([]int32, offered)
+			wg.Add(1)
+			go func(w int) {
+				defer wg.Done()
+				defer func() {
+					if x := recover(); x != nil {
+						panicked.Store(fmt.Sprint(x))
+					}
+				}()
+				for i := 0; i < offered; i++ {
+					src := full.GetPart(i)
+					pt := &types.Part{Index: src.Index, Bytes: src.Bytes, Proof: src.Proof}
+					<-gates[i]
+					if ok, _ := set.AddPart(pt); ok {
+						addedBy[w][i] = 1
+					}
+				}
+			}(w)
+		}
+		for i := range gates {
+			close(gates[i])
+			runtime.Gosched()
+		}
+		wg.Wait()
+		run.Eval(1)
+		run.Count("concurrent_duplicate_deliveries", workers*offered)
+		wit := func() interface{} {
+			return map[string]interface{}{"parts": n, "offered": offered, "part_size": ps, "goroutines": workers, "round": round}
+		}
+		if p := panicked.Load(); p != nil {
+			c.Violation("partset:concurrent:panic", fmt.Sprintf("AddPart panicked under concurrent duplicate delivery: %v", p), wit())
+			return
+		}
+		for i := 0; i < offered; i++ {
+			k := 0
+			for w := 0; w < workers; w++ {
+				k += int(addedBy[w][i])
+			}
+			if k != 1 {
+				c.Violation("partset:concurrent:slot-added-"+map[bool]string{true: "twice", false: "never"}[k > 1], fmt.Sprintf("part %d of %d, offered by %d goroutines at once, was reported as added %d times", i, n, workers, k), wit())
+				return
+			}
+		}
+		if int(set.Count()) != offered || set.IsComplete() != (offered == n) {
+			c.Violation("partset:concurrent:count-differs-from-filled-slots", fmt.Sprintf("%d of %d parts delivered (each by %d goroutines at once): count=%d complete=%v", offered, n, workers, set.Count(), set.IsComplete()), wit())
+			return
+		}
+		if offered == n {
+			var got []byte
+			if c.Guard("PartSet.GetReader after concurrent delivery", wit, func() { got, _ = io.ReadAll(set.GetReader()) }) {
+				return
+			}
+			if !bytes.Equal(got, data) {
+				c.Violation("partset:concurrent:read-back-differs", "the complete set does not read back the data", wit())
+				return
+			}
+			run.Count("concurrent_sets_read_back", 1)
+		}
+	}
+	run.Nontrivial(fmt.Sprint("conc", c.I))
 }
